@@ -400,7 +400,9 @@ class Local_sync_paths(_Local):
 
     def inv(self, ctx, env, k):
         fs1 = ctx.globals["__fs__"]
-        return self.state_rel(ctx, fs1, k) + [("REP:" + n, c) for n, c in self.REP(fs1, ctx.args["self"])]
+        # the state after k iterations is a well-formed file system (the loop havocs the ghost state: nothing about it is
+        # known but what the invariant says)
+        return [("fs_wf", fs1.wf()[0])] + self.state_rel(ctx, fs1, k) + [("REP:" + n, c) for n, c in self.REP(fs1, ctx.args["self"])]
 
     def ensures(self, ctx):
         fs1 = ctx.globals["__fs__"]
